@@ -821,7 +821,23 @@ def judge_splinecv(run, ev):
         if not calls:
             run.violation("splinecv_uses_cv", "the cross-validator given to SplineCV was never asked for splits", wit, key="splinecv-cv")
             return
-        if len(calls) == len(cands):
+        first = calls[0]["splits"]
+        all_same = all(len(c["splits"]) == len(first) and all(np.array_equal(x[0], y[0]) and np.array_equal(x[1], y[1])
+                                                              for x, y in zip(c["splits"], first)) for c in calls[1:])
+        if mode != "client" and len(tickets) == len(cands) and all(t.splits is not None for t in tickets):
+            # the nested cross_val_score calls are visible, in candidate order: each was judged with the splits of its own cv.split pass
+            per_cand = [t.splits for t in tickets]
+        elif mode == "client" and not all_same:
+            # candidates run concurrently in the cluster: the order of the split() passes says nothing; take each candidate's splits
+            # from the nested cross_val_score call that was made for it (told apart by the Spline parameters)
+            per_cand = []
+            for m, d in cands:
+                mine = [t for t in tickets if t.splits is not None and t.template.mindist == m and (t.template.damping == d or (t.template.damping is None and d is None))]
+                if len(mine) != 1:
+                    run.count("unmonitored:SplineCV_client_splits_cannot_be_attributed_to_candidates")
+                    return
+                per_cand.append(mine[0].splits)
+        elif len(calls) == len(cands):
             per_cand = [c["splits"] for c in calls]
         else:
             first = calls[0]["splits"]
